@@ -32,8 +32,9 @@ func dotted(path ...string) Expr {
 }
 
 // c04Prelude declares handlers, metatables and operands.
-//   ret: the first value the handlers return ("str": a tagged string, "false", "nil")
-//   events: which events the shared metatables define
+//
+//	ret: the first value the handlers return ("str": a tagged string, "false", "nil")
+//	events: which events the shared metatables define
 func c04Prelude(ret string, events []string) []Stat {
 	var rv func(tag string) Expr
 	switch ret {
